@@ -61,7 +61,8 @@ The model follows what the reference build (x86-64, shift count taken modulo 32)
 bit `b mod 32` of the zero-extended value, i.e. 0 whenever `b mod 32 ≥ 16`. -/
 def tstb_SttMod_Imm16 (a b : Nat) : Exec Unit := do
   let value ← regToBus16 (SttMod.name a)
-  modifyRegs fun r => { r with fz := (value >>> ((imm16 b).toNat % 32)) &&& 1 }
+  -- bit `b` of the 16-bit word; 0 for b ≥ 16 (the pinned upstream code shifted by the raw immediate: undefined for b ≥ 32)
+  modifyRegs fun r => { r with fz := if (imm16 b).toNat < 16 then (value >>> (imm16 b).toNat) &&& 1 else 0 }
 
 def and__Ab_Ab_Ax (a b c : Nat) : Exec Unit := do
   let value := (← getAcc (Ab.name a)) &&& (← getAcc (Ab.name b))
